@@ -25,6 +25,11 @@ def step (st : St) (ws : List String) (j : Json) : St × String :=
     (if ret == "ok:pending" then (st, "ok finishclaimed:followup-pending")
      else if ret == "ok:nothing-claimed" || ret == "ok:idle" then (st, "ok trivial:finishclaimed")
      else (st, s!"FAIL oracle followup_pending_after_commit {ret}")) else
+  -- C09: after a start the store-wide recurring tasks are in the queue, whatever the instance held when it started
+  -- (`recurring_scheduled_unconditionally`)
+  if op == "recurring" then
+    (if ret == "ok:all" then (st, "ok recurring:all-queued")
+     else (st, s!"FAIL oracle recurring_scheduled_after_start {ret}")) else
   if !singleRequest op then (st, s!"ok trivial:{op}") else
   let succ := (jarr (jget j "cmds")).filter fun c =>
     jstr (jget c "result") == "success" && (jstr (jget c "entity")).startsWith "cas:"
